@@ -391,9 +391,12 @@ def _applicable(ctx, real, info, exc, batches):
                                    f"{info['new_max']!r}: an earlier extension ended a few ulp "
                                    "short of the same newMax (arange rounding) and the "
                                    "remainder was extended again"))
-    if info.get("adaptive") and not emptied and not unsorted and fn.R == 1 and any(
-            b[0].ndim >= 1 and np.any(fn.bad(b[0])) and not np.all(fn.bad(b[0]))
-            for b in batches):
+    tx = info.get("tol_x", 1e-12)
+    uncovered = rp.size == 0 or float(rp[0]) > info.get("lo", np.inf) + tx \
+        or float(rp[-1]) < info.get("hi", -np.inf) - tx
+    if info.get("adaptive") and not emptied and not unsorted and uncovered and fn.R == 1 \
+            and any(b[0].ndim >= 1 and np.any(fn.bad(b[0])) and not np.all(fn.bad(b[0]))
+                    for b in batches):
         applicable.append((D5, "the direct evaluations of this call contain finite and "
                            "non-finite values of a scalar function; the finite ones were not "
                            "registered, so the adaptive update is not the one that is due"))
@@ -1288,7 +1291,7 @@ def _run_sub(case):
 def generate(tier, seed):
     rng = np.random.default_rng(18000 + seed)
     cases = []
-    reps = 16 if tier == "quick" else 320
+    reps = 16 if tier == "quick" else 200
     maxops = 12 if tier == "quick" else 40
     for rep in range(reps):
         for R in (1, 2, 3, 4):
